@@ -145,10 +145,15 @@ pub fn gen_map_for(rng: &mut Rng, text: &str, own_name: Option<&str>) -> MapSpec
         } else {
           None
         };
+        // 4 in 1000 segments are "wild": an original line / column near
+        // 2^29 (seven VLQ digits)
+        let wild = rng.chance(4);
+        // (kept below 2^30 so that every delta fits a signed 32-bit VLQ value)
+        let big = |rng: &mut Rng| (1u32 << 29) - 1 + rng.below(3) as u32 + if rng.chance(300) { 1 << 28 } else { 0 };
         Some((
           rng.below(nsrc as u64) as u32,
-          1 + rng.below(4) as u32,
-          rng.below(12) as u32,
+          if wild && rng.chance(500) { big(rng) } else { 1 + rng.below(4) as u32 },
+          if wild { big(rng) } else { rng.below(12) as u32 },
           name,
         ))
       };
